@@ -535,3 +535,182 @@ def _judge_paths(add, construct, val, P, shape, root, vt, win, window, wit):
                         add(construct, "path:waits-through-inactive-instant",
                             "in %s the walk waits on %s from t+%d to t+%d although %s has no %sinteraction at t+%d" % (
                                 list(hops), h1[1], h1[2], h2[2], h1[1], "outgoing " if shape.directed else "", idle[0]), wit)
+
+
+# ---------------------------------------------------------------------------------------------------
+# C13 on the bounded shapes: the returned set equals the brute-force enumeration of admissible hop sequences
+# ---------------------------------------------------------------------------------------------------
+def oracle_paths(P, shape, root, vt, wk):
+    """All hop sequences that satisfy the conditions of C12 on the graph described by the presence table: first hop leaves
+    the root, hops chain, times strictly increase inside the window, every hop is present (oriented), no hop immediately
+    reverses the previous one, a node waits only through instants at which it has an (outgoing) interaction, the last hop
+    reaches v when v is given."""
+    byk = {t.k: t for t in P.ids}
+    out = set()
+
+    def extend(hops):
+        if vt is None or hops[-1][1] == vt:
+            out.add(tuple(hops))
+        (a, b, t) = hops[-1]
+        for t2 in wk:
+            if t2 <= t:
+                continue
+            if any(not P.out_nbrs(b, byk[k]) for k in wk if t < k < t2):
+                break               # b expired before t2 (and stays expired)
+            for c in P.out_nbrs(b, byk[t2]):
+                if c == a:
+                    continue        # (b, a) would immediately reverse (a, b)
+                extend(hops + [(b, c, t2)])
+    for t in wk:
+        for b in P.out_nbrs(root, byk[t]):
+            extend([(root, b, t)])
+    return out
+
+
+def _returned_paths(val):
+    """hop tuples of a time_respecting_paths result, or None when the result has another shape"""
+    if isinstance(val, ListObj) and not val.items:
+        return set()
+    if not isinstance(val, DictObj):
+        return None
+    got = set()
+    for key, plist in val.entries.items():
+        if not isinstance(plist, ListObj):
+            return None
+        for p in plist.items:
+            if not isinstance(p, (TupleV, ListObj)):
+                return None
+            hops = []
+            for h in p.items:
+                if not (isinstance(h, TupleV) and len(h.items) == 3 and isinstance(h.items[0], NodeV) and isinstance(h.items[1], NodeV)
+                        and isinstance(h.items[2], Int)):
+                    return None
+                hops.append((h.items[0].role, h.items[1].role, h.items[2].k))
+            got.add(tuple(hops))
+    return got
+
+
+def check_completeness(repo: Repo, rep: Report, tier="quick"):
+    """time_respecting_paths(sample=1) against the brute-force enumeration, and all_time_respecting_paths against
+    time_respecting_paths, on the symbolic temporal graphs of the C12 check (every presence valuation)."""
+    functions = repo.functions(PATHS)
+    fn_trp = repo.get(PATHS, "time_respecting_paths")
+    fn_all = repo.get(PATHS, "all_time_respecting_paths")
+    c_trp, c_all = repo.construct(PATHS, "time_respecting_paths"), repo.construct(PATHS, "all_time_respecting_paths")
+    params_all = [a.arg for a in fn_all.args.args]
+    if params_all[:1] != ["G"] or "min_t" not in params_all:
+        raise AnalysisError("all_time_respecting_paths: unexpected signature %s" % params_all)
+    ot = OrderType([["t"]], [], 8)
+    findings = {}
+    stats = dict(runs=0, paths=0, oracle=0, aggregated=0)
+
+    def add(construct, key, msg, wit, line=0):
+        if (construct, key) not in findings:
+            findings[(construct, key)] = dict(message=msg, witness=wit, line=line, count=0)
+        findings[(construct, key)]["count"] += 1
+    n_ids = 3
+    for cls in CLASSES:
+        directed = cls == "DynDiGraph"
+        methods = repo.class_methods(CLASSES[cls], cls)
+        shapes = dag_shapes(directed)
+        if tier == "quick":
+            shapes = [Shape(sh.name + " (first two pairs)" if len(sh.edges) > 2 else sh.name, sh.nodes, sh.edges[:2], directed) for sh in shapes]
+        ids = [T(k) for k in IDS[:n_ids]]
+        cases = [(shape, seed) for shape in shapes for seed in _seeds(shape, ids)]
+        if directed:
+            cyc = Shape("cycle A->B, B->AB, AB->A", ["A", "B", "AB"], [("A", "B"), ("B", "AB"), ("AB", "A")], True)
+            pats = {("A", "B"): [(1,), (1, 4), (1, 2)], ("B", "AB"): [(2,), (2, 4)], ("AB", "A"): [(4,), (2, 4)]}
+        else:
+            cyc = Shape("triangle A-B-C", ["A", "B", "C"], [("A", "B"), ("B", "C"), ("A", "C")], False)
+            pats = {("A", "B"): [(1,), (1, 4), (1, 2)], ("B", "C"): [(2,), (2, 4)], ("A", "C"): [(4,), (2, 4)]}
+        keys = sorted(pats, key=str)
+        for combo in itertools.product(*[pats[k] for k in keys]):
+            cases.append((cyc, {("present", k, repr(t)): (t.k in on) for k, on in zip(keys, combo) for t in ids}))
+        for shape, seed in cases:
+            P = PresenceTable(shape, seed, ids)
+            pres = ", ".join("%s%s%s@%s" % (k[1][0], "->" if directed else "-", k[1][1], k[2]) for k, v in sorted(seed.items(), key=str) if v) or "nothing"
+            for window in ((None, None), (T(2), T(4))):
+                win = [t for t in ids if (window[0] is None or t.k >= window[0].k) and (window[1] is None or t.k <= window[1].k)]
+                wk = [t.k for t in win]
+                per_root = {}
+                for root in shape.nodes:
+                    for vt in (None,) + ((("AB" if "AB" in shape.nodes else "C"),) if root == "A" else ()):
+                        stats["runs"] += 1
+                        wit = "%s %s | u=%s, v=%s, window=%s | present: %s" % (
+                            cls, shape.name, root, vt, "all ids (t+1, t+2, t+4)" if window[0] is None else "[t+2,t+4]", pres)
+                        w = DagLoopWorld(cls, shape, dict(seed), methods, functions, n_ids, True)
+                        ip = Interp(w, ot, max_depth=10)
+                        env = {"G": SelfV(), "u": NodeV(root), "v": NodeV(vt) if vt else NONE,
+                               "start": window[0] if window[0] is not None else NONE, "end": window[1] if window[1] is not None else NONE,
+                               "sample": Const(1)}
+                        try:
+                            val = ip.call_function(fn_trp, env)
+                        except AbstractRaise as r:
+                            add(c_trp, "raises:%s" % r.exc, "time_respecting_paths raises %s (%s)" % (r.exc, r.detail), wit, getattr(r.node, "lineno", 0))
+                            continue
+                        stats["paths"] += 1
+                        got = _returned_paths(val)
+                        if got is None:
+                            add(c_trp, "result-shape", "time_respecting_paths returns %r" % (val,), wit)
+                            continue
+                        if vt is None:
+                            per_root[root] = val
+                        start_k = wk[0] if wk else None
+                        first_id = ids[0]
+                        at_start = window[0] if window[0] is not None else first_id
+                        present_at_start = bool(P.out_nbrs(root, at_start) or any(P.present(a, b, at_start) for (a, b) in shape.edges if b == root))
+                        if not present_at_start:
+                            if window[0] is not None and got:
+                                add(c_trp, "start-guard:not-empty", "u has no interaction at start but %d path(s) are returned" % len(got), wit)
+                            continue        # (default start: the guard on the flattened graph is not judged, see C12)
+                        want = oracle_paths(P, shape, root, vt, wk)
+                        stats["oracle"] += len(want)
+                        missing = want - got
+                        if missing:
+                            ex = sorted(missing, key=lambda p: (len(p), p))[0]
+                            add(c_trp, "missed:%d-hop" % len(ex),
+                                "the admissible hop sequence %s is not returned (%d of %d admissible sequences are missing)" % (
+                                    list(ex), len(missing), len(want)), wit)
+                # all_time_respecting_paths: every (u, w) of every u present at min_t maps to time_respecting_paths(u)[(u, w)]
+                for min_t in (None, T(2)):
+                    stats["runs"] += 1
+                    w = DagLoopWorld(cls, shape, dict(seed), methods, functions, n_ids, True)
+                    ip = Interp(w, ot, max_depth=12)
+                    env = {"G": SelfV(), "start": window[0] if window[0] is not None else NONE, "end": window[1] if window[1] is not None else NONE,
+                           "sample": Const(1), "min_t": min_t if min_t is not None else NONE}
+                    wit = "%s %s | all_time_respecting_paths(start, end = %s, min_t=%s) | present: %s" % (
+                        cls, shape.name, "None" if window[0] is None else "t+2, t+4", "None" if min_t is None else "t+2", pres)
+                    try:
+                        val = ip.call_function(fn_all, {k: v for k, v in env.items() if k in params_all})
+                    except AbstractRaise as r:
+                        add(c_all, "raises:%s" % r.exc, "all_time_respecting_paths raises %s (%s)" % (r.exc, r.detail), wit, getattr(r.node, "lineno", 0))
+                        continue
+                    if not isinstance(val, DictObj):
+                        add(c_all, "result-shape", "all_time_respecting_paths returns %r" % (val,), wit)
+                        continue
+                    stats["aggregated"] += 1
+                    want = {}
+                    for root in shape.nodes:
+                        at = min_t
+                        here = True if at is None else bool(P.out_nbrs(root, at) or any(P.present(a, b, at) for (a, b) in shape.edges if b == root))
+                        res = per_root.get(root)
+                        if not here or not isinstance(res, DictObj):
+                            continue
+                        for key, plist in res.entries.items():
+                            want[to_py(key)] = to_py(plist)
+                    got = {to_py(k): to_py(v) for k, v in val.entries.items()}
+                    if got != want:
+                        miss = sorted(set(want) - set(got), key=str)
+                        extra = sorted(set(got) - set(want), key=str)
+                        kind = "missing-pairs" if miss else ("extra-pairs" if extra else "different-paths")
+                        add(c_all, "aggregation:%s" % kind,
+                            "all_time_respecting_paths maps %s; time_respecting_paths(G, u, None, start, end) for the nodes u present at min_t "
+                            "gives %s" % (sorted(got, key=str), sorted(want, key=str)), wit)
+    for (construct, key), f in sorted(findings.items()):
+        rep.finding("Q.complete", construct, key, f["message"] + " [%d valuations]" % f["count"], witness=f["witness"], line=f["line"])
+    rep.ob("Q.complete", c_trp, "returned set = brute-force enumeration on %d interpreted calls (%d admissible sequences)" % (stats["paths"], stats["oracle"]),
+           ok=not any(c == c_trp for c, _ in findings))
+    rep.ob("Q.complete", c_all, "aggregation = per-source results on %d interpreted calls" % stats["aggregated"], ok=not any(c == c_all for c, _ in findings))
+    rep.stats["abstract_runs"] = rep.stats.get("abstract_runs", 0) + stats["paths"] + stats["aggregated"]
+    rep.sample(dict(engine="Q", what="completeness of time_respecting_paths on symbolic temporal graphs", **stats))
+    return stats["paths"] + stats["aggregated"]
